@@ -2,8 +2,10 @@
 C13 — PSI/SI tables are decoded field for field; PAT and PMT are encoded exactly.
 -/
 import Astits.Model.PSI
+import Astits.Model.Mux
 import Astits.Props.C14
 import Astits.Proofs.Layout
+import Astits.Proofs.PSIRT
 namespace Astits.C13
 
 /-- one PAT entry: 16-bit program_number, 3 reserved bits, 13-bit PID — all values round-trip -/
@@ -62,5 +64,192 @@ theorem pmt_es_entry_length (es : PMTElementaryStream) (h : ∀ d ∈ es.element
   omega
 
 example : packFields [(1, 16), (7, 3), (0x1000, 13)] = [0, 1, 0xf0, 0] := by decide
+
+open Astits.PSIRT
+
+/-! ## Whole-structure round trips (helpers in `Proofs/PSIRT.lean`, namespace `Astits.PSIRT`)
+
+`mkPATSection crc h sh d` / `mkPMTSection crc h sh d` are the sections the writer accepts (`crc` is the ignored `CRC32`
+field of the input).  What `parsePSIData` returns for the written bytes is the same section up to the fields the
+parser recomputes:
+* `Header.SectionLength` = number of bytes that follow the field, `Header.TableType` = the name of the table id;
+* `CRC32` = `computeCRC32` of all section bytes that precede the CRC field (`sectionPre`);
+* `PATData.TransportStreamID` / `PMTData.ProgramNumber` = the `table_id_extension` of the syntax header (the writer
+  does not emit the struct field at all: it is equal exactly when the caller kept the two in sync, as the muxer does).
+-/
+
+/-- the bytes before the CRC field: a written PAT/PMT section is `sectionPre s ++ be32 (computeCRC32 (sectionPre s))` -/
+theorem sectionPre_spec (s : PSISection) (sec : Bytes) (h : writePSISection s = .ok sec)
+    (hl : (s.header.getD {}).sectionLength > 0) :
+    sec = sectionPre s ++ be32 (computeCRC32 (sectionPre s)) := by
+  have hp : sectionPre s = sec.take (sec.length - 4) := by unfold sectionPre; rw [h]
+  unfold writePSISection at h
+  split at h
+  · cases h
+  · rename_i hd heq
+    split at h
+    · cases h
+    · split at h
+      · cases h
+      · split at h
+        · split at h
+          · cases h
+          · simp only [heq, Option.getD_some] at hl
+            simp only [hl, if_true, Res.ok.injEq] at h
+            rw [hp, ← h, take_pre_crc]
+        · cases h
+
+/-- **PAT round trip**: any PAT (any number of programs that fits the 12-bit section_length, 16-bit program numbers,
+13-bit PIDs, 16-bit transport_stream_id, 5-bit version, 8-bit section numbers, any flags) behind any pointer field,
+written by `writePSIData` and parsed by `parsePSIData`, comes back; the whole slice is consumed -/
+theorem pat_roundtrip (pf crc : Nat) (h : PSISectionHeader) (sh : PSISectionSyntaxHeader) (d : PATData)
+    (hpf : pf < 256) (ht : h.tableID = 0) (hsl : h.sectionLength > 0) (hsh : SyntaxHeaderOk sh) (hd : PATOk d) :
+    ∃ bs, writePSIData { pointerField := (pf : Int), sections := [mkPATSection crc h sh d] } = .ok bs ∧
+      parsePSIData ⟨bs, 0⟩ = .ok ({ pointerField := (pf : Int), sections := [
+        parsedSection (computeCRC32 (sectionPre (mkPATSection crc h sh d))).toNat
+          { h with sectionLength := 9 + 4 * d.programs.length, tableType := "PAT" } sh
+          { pat := some { programs := d.programs, transportStreamID := sh.tableIDExtension } }] }, ⟨bs, (bs.length : Int)⟩) :=
+  psi_data_rt pf hpf _ _ (.cons (pat_section_rt crc h sh d ht hsl hsh hd) .nil)
+
+/-- when the struct's `TransportStreamID` is the syntax header's `table_id_extension`, the PAT itself comes back -/
+theorem pat_roundtrip_data (pf crc : Nat) (h : PSISectionHeader) (sh : PSISectionSyntaxHeader) (d : PATData)
+    (hpf : pf < 256) (ht : h.tableID = 0) (hsl : h.sectionLength > 0) (hsh : SyntaxHeaderOk sh) (hd : PATOk d)
+    (hext : sh.tableIDExtension = d.transportStreamID) :
+    ∃ bs c, writePSIData { pointerField := (pf : Int), sections := [mkPATSection crc h sh d] } = .ok bs ∧
+      parsePSIData ⟨bs, 0⟩ = .ok ({ pointerField := (pf : Int), sections := [
+        parsedSection c { h with sectionLength := 9 + 4 * d.programs.length, tableType := "PAT" } sh { pat := some d }] },
+        ⟨bs, (bs.length : Int)⟩) := by
+  obtain ⟨bs, hw, hp⟩ := pat_roundtrip pf crc h sh d hpf ht hsl hsh hd
+  refine ⟨bs, (computeCRC32 (sectionPre (mkPATSection crc h sh d))).toNat, hw, ?_⟩
+  rw [hp, hext]
+
+/-- **PMT round trip**, descriptors included, for descriptors that satisfy the round-trip hypothesis `DescOk`
+(`parseDescriptor (writeDescriptor x) = x` wherever the bytes stand, and the bytes written are what the length
+calculator announces): 13-bit PCR PID, 8-bit stream types, 13-bit elementary PIDs, the section fits 12 bits -/
+theorem pmt_roundtrip (pf crc : Nat) (h : PSISectionHeader) (sh : PSISectionSyntaxHeader) (d : PMTData)
+    (hpf : pf < 256) (ht : h.tableID = 2) (hsl : h.sectionLength > 0) (hsh : SyntaxHeaderOk sh) (hd : PMTOk d) :
+    ∃ bs, writePSIData { pointerField := (pf : Int), sections := [mkPMTSection crc h sh d] } = .ok bs ∧
+      parsePSIData ⟨bs, 0⟩ = .ok ({ pointerField := (pf : Int), sections := [
+        parsedSection (computeCRC32 (sectionPre (mkPMTSection crc h sh d))).toNat
+          { h with sectionLength := 9 + pmtBodySize d, tableType := "PMT" } sh
+          { pmt := some { d with programNumber := sh.tableIDExtension } }] }, ⟨bs, (bs.length : Int)⟩) :=
+  psi_data_rt pf hpf _ _ (.cons (pmt_section_rt crc h sh d ht hsl hsh hd) .nil)
+
+/-- the length half of `DescOk` is C14's `length_matches`: a descriptor whose body has its computed length -/
+theorem descOk_of_bodyFits (x : Descriptor) (rt : DescRT x) (hfit : C14.BodyFits x) : DescOk x :=
+  ⟨rt, (C14.length_matches x hfit).1⟩
+
+/-- a PMT without descriptors: no hypothesis about descriptors is left -/
+structure PMTPlainOk (d : PMTData) : Prop where
+  pcrPID : d.pcrPID < 8192
+  noProgramDescriptors : d.programDescriptors = []
+  streams : ∀ es ∈ d.elementaryStreams, es.streamType < 256 ∧ es.elementaryPID < 8192 ∧ es.elementaryStreamDescriptors = []
+  fits : 13 + 5 * d.elementaryStreams.length < 4096
+
+theorem PMTPlainOk.ok {d : PMTData} (p : PMTPlainOk d) : PMTOk d ∧ pmtBodySize d = 4 + 5 * d.elementaryStreams.length := by
+  have hsum : (d.elementaryStreams.map fun es => 5 + descriptorsSize es.elementaryStreamDescriptors).sum = 5 * d.elementaryStreams.length := by
+    have : ∀ l : List PMTElementaryStream, (∀ es ∈ l, es.elementaryStreamDescriptors = []) →
+        (l.map fun es => 5 + descriptorsSize es.elementaryStreamDescriptors).sum = 5 * l.length := by
+      intro l
+      induction l with
+      | nil => intro _; rfl
+      | cons x r ih =>
+        intro hl
+        simp only [List.map_cons, List.sum_cons, List.length_cons, hl x (by simp), descriptorsSize,
+          ih (fun e he => hl e (by simp [he]))]
+        omega
+    exact this _ (fun es hes => (p.streams es hes).2.2)
+  have hsize : pmtBodySize d = 4 + 5 * d.elementaryStreams.length := by
+    simp only [pmtBodySize, p.noProgramDescriptors, descriptorsSize, hsum]
+  refine ⟨⟨p.pcrPID, ?_, ?_, ?_⟩, hsize⟩
+  · rw [p.noProgramDescriptors]; intro x hx; cases hx
+  · intro es hes
+    obtain ⟨h1, h2, h3⟩ := p.streams es hes
+    refine ⟨h1, h2, ?_, ?_⟩
+    · rw [h3]; intro x hx; cases hx
+    · rw [h3]; simp [descriptorsSize]
+  · rw [hsize]; have := p.fits; omega
+
+theorem pmt_roundtrip_plain (pf crc : Nat) (h : PSISectionHeader) (sh : PSISectionSyntaxHeader) (d : PMTData)
+    (hpf : pf < 256) (ht : h.tableID = 2) (hsl : h.sectionLength > 0) (hsh : SyntaxHeaderOk sh) (hd : PMTPlainOk d) :
+    ∃ bs, writePSIData { pointerField := (pf : Int), sections := [mkPMTSection crc h sh d] } = .ok bs ∧
+      parsePSIData ⟨bs, 0⟩ = .ok ({ pointerField := (pf : Int), sections := [
+        parsedSection (computeCRC32 (sectionPre (mkPMTSection crc h sh d))).toNat
+          { h with sectionLength := 13 + 5 * d.elementaryStreams.length, tableType := "PMT" } sh
+          { pmt := some { d with programNumber := sh.tableIDExtension } }] }, ⟨bs, (bs.length : Int)⟩) := by
+  obtain ⟨bs, hw, hp⟩ := pmt_roundtrip pf crc h sh d hpf ht hsl hsh hd.ok.1
+  refine ⟨bs, hw, ?_⟩
+  rw [hp, hd.ok.2]
+  have : 9 + (4 + 5 * d.elementaryStreams.length) = 13 + 5 * d.elementaryStreams.length := by omega
+  rw [this]
+
+/-- **any sequence of PAT and PMT sections** in one PSI unit: written and parsed back section by section -/
+theorem psi_roundtrip (pf : Nat) (hpf : pf < 256) (ss ss' : List PSISection) (h : SectionsRT ss ss') :
+    ∃ bs, writePSIData { pointerField := (pf : Int), sections := ss } = .ok bs ∧
+      parsePSIData ⟨bs, 0⟩ = .ok ({ pointerField := (pf : Int), sections := ss' }, ⟨bs, (bs.length : Int)⟩) :=
+  psi_data_rt pf hpf ss ss' h
+
+/-! #### non-vacuity -/
+
+/-- the muxer's own PAT (`tablePSI` as `generatePAT` builds it), any version -/
+example (v : Nat) (hv : v < 32) : ∃ bs, writePSIData (tablePSI 0 (calcPATSectionLength patData) 0 v { pat := some patData }) = .ok bs ∧
+    ∃ c hdr i, parsePSIData ⟨bs, 0⟩ = .ok ({ pointerField := 0, sections := [parsedSection c hdr
+      { currentNextIndicator := true, tableIDExtension := 0, versionNumber := v } { pat := some patData }] }, i) := by
+  have hsh : SyntaxHeaderOk { currentNextIndicator := true, tableIDExtension := 0, versionNumber := v } :=
+    ⟨by simp, hv, by simp, by simp⟩
+  have hd : PATOk patData := ⟨by decide, by decide⟩
+  have hsl : ({ sectionLength := calcPATSectionLength patData, sectionSyntaxIndicator := true, tableID := 0 } : PSISectionHeader).sectionLength > 0 := by
+    decide
+  obtain ⟨bs, hw, hp⟩ := pat_roundtrip 0 0 _ _ patData (by decide) rfl hsl hsh hd
+  exact ⟨bs, hw, _, _, _, hp⟩
+
+/-- the muxer's own PMT (`tablePSI` as `generatePMT` builds it) for streams without descriptors -/
+example (m : Mux) (v : Nat) (hv : v < 32) (hd : PMTPlainOk m.pmtData) :
+    ∃ bs c hdr i, writePSIData (tablePSI 2 (calcPMTSectionLength m.pmtData) m.pmtData.programNumber v { pmt := some m.pmtData }) = .ok bs ∧
+      parsePSIData ⟨bs, 0⟩ = .ok ({ pointerField := 0, sections := [parsedSection c hdr
+        { currentNextIndicator := true, tableIDExtension := 1, versionNumber := v } { pmt := some m.pmtData }] }, i) := by
+  have hsh : SyntaxHeaderOk { currentNextIndicator := true, tableIDExtension := 1, versionNumber := v } :=
+    ⟨by simp, hv, by simp, by simp⟩
+  have hsl : ({ sectionLength := calcPMTSectionLength m.pmtData, sectionSyntaxIndicator := true, tableID := 2 } : PSISectionHeader).sectionLength > 0 := by
+    have h1 := calcPMT m.pmtData hd.ok.1
+    have h2 := hd.ok.1.fits
+    have h3 : calcPSISectionLength 2 { pmt := some m.pmtData } = (5 + calcPMTSectionLength m.pmtData + 4) % 65536 := by
+      simp [calcPSISectionLength, hasPSISyntaxHeader, hasCRC32]
+    have h4 : calcPMTSectionLength m.pmtData < 65536 := by unfold calcPMTSectionLength; omega
+    have h5 : pmtBodySize m.pmtData ≥ 4 := by unfold pmtBodySize; omega
+    show calcPMTSectionLength m.pmtData > 0
+    omega
+  obtain ⟨bs, hw, hp⟩ := pmt_roundtrip 0 0 _ _ m.pmtData (by decide) rfl hsl hsh hd.ok.1
+  exact ⟨bs, _, _, _, hw, hp⟩
+
+def exPAT : PATData :=
+  { programs := [{ programMapID := 0x1000, programNumber := 1 }, { programMapID := 0x1fff, programNumber := 65535 }], transportStreamID := 7 }
+
+example : PATOk exPAT := ⟨by decide, by decide⟩
+
+def exPMT : PMTData :=
+  { elementaryStreams := [{ elementaryPID := 0x100, streamType := 0x1b, elementaryStreamDescriptors := [userDescriptor 0x90 [1, 2, 3]] }, { elementaryPID := 0x101, streamType := 0x0f }], pcrPID := 0x100, programDescriptors := [userDescriptor 0x80 []], programNumber := 1 }
+
+/-- a PMT with a program descriptor and a stream descriptor (user-defined tags) satisfies the hypotheses -/
+example : PMTOk exPMT := by
+  have d1 := userDescriptor_ok 0x90 [1, 2, 3] (by decide) (by decide)
+  have d2 := userDescriptor_ok 0x80 [] (by decide) (by decide)
+  refine ⟨by decide, ?_, ?_, by decide⟩
+  · intro x hx; simp [exPMT] at hx; subst hx; exact d2
+  · intro es hes
+    simp [exPMT] at hes
+    rcases hes with rfl | rfl
+    · refine ⟨by decide, by decide, ?_, by decide⟩
+      intro x hx; simp at hx; subst hx; exact d1
+    · refine ⟨by decide, by decide, ?_, by decide⟩
+      intro x hx; cases hx
+
+def exPMTPlain : PMTData :=
+  { elementaryStreams := [{ elementaryPID := 0x100, streamType := 0x1b }, { elementaryPID := 0x101, streamType := 0x0f }], pcrPID := 0x100, programNumber := 1 }
+
+example : PMTPlainOk exPMTPlain := ⟨by decide, rfl, by decide, by decide⟩
+
+example : SyntaxHeaderOk { currentNextIndicator := true, tableIDExtension := 1, versionNumber := 31, sectionNumber := 0, lastSectionNumber := 255 } :=
+  ⟨by decide, by decide, by decide, by decide⟩
 
 end Astits.C13
